@@ -20,6 +20,15 @@ class CallMixin(object):
             # super().m(a, **kwargs): the mapping is handed to the callee's **kwargs parameter
             e2 = ast.copy_location(ast.Call(func=f, args=e.args, keywords=[ast.keyword(arg="**" if k.arg is None else k.arg, value=k.value) for k in e.keywords]), e)
             return self.call_super(f.attr, e2, st)
+        if not any(isinstance(a, ast.Starred) for a in e.args) and sum(1 for k in e.keywords if k.arg is None) == 1 and \
+                isinstance(f, ast.Attribute) and not getattr(e, "_kwpass", False):
+            # obj.m(a, **mapping): the mapping is handed to the callee's **kwargs parameter
+            e2 = ast.copy_location(ast.Call(func=f, args=e.args, keywords=[ast.keyword(arg="**" if k.arg is None else k.arg, value=k.value) for k in e.keywords]), e)
+            e2._kwpass = True
+            try:
+                return self.ex_Call(e2, st)
+            except OutsideSubset:
+                pass
         if any(isinstance(a, ast.Starred) for a in e.args) or any(k.arg is None for k in e.keywords):
             return self.call_starred(e, st)
         # ---- specification forms / builtins by name (in specifications they win over a local of the same name)
@@ -56,6 +65,8 @@ class CallMixin(object):
                 for st1, args in self.ev_list(e.args, st):
                     res.extend(self.apply_fn(fv, args, st1, e))
                 return res
+            if fv.ty is MODULE and fv.items and self.reg.externals.get(fv.items[0]) not in (None, "drop"):
+                return self.call_with_args(self.reg.externals[fv.items[0]], None, e, st)      # a variable holding an external function
             cs = getattr(self.reg, "callable_sorts", {}).get(fv.ty.name) if isinstance(fv.ty, U) else None
             if cs is not None:
                 return self.call_with_args(cs, fv, e, st)
@@ -305,8 +316,11 @@ class CallMixin(object):
         post.pc = ns.pc
         self._rebind_inout(c, ns, post, bound, node)
         for gname, (gty, _init) in list(c.ghosts.items()) + list(c.ghost_final.items()):
-            gv = fresh(gty, gname)
-            ns.assume(*wf(gv))
+            if gname in c.ghost_final and _init.strip() == "result" and res.ty == gty:
+                gv = res                    # the ghost result *is* the returned value
+            else:
+                gv = fresh(gty, gname)
+                ns.assume(*wf(gv))
             post.env[gname] = gv
             ns.env["%s_%s" % (c.qualname.split(".")[-1], gname)] = gv      # visible to the caller's invariants
         for text in c.ensures:
@@ -559,6 +573,17 @@ class CallMixin(object):
         if o.ty is EMPTY_LIST:
             return [(st, NONEV, recv)]
         o = self.adapt(o, recv.ty) if o.ty is STATIC or isinstance(o.ty, Tup) else o
+        if o.ty != recv.ty and isinstance(o.ty, List):
+            # element-wise conversion (e.g. Optional[X] elements known present -> X)
+            conv = fresh(recv.ty, "conv")
+            st = st.copy()
+            try:
+                st.assume(core.llen(conv) == core.llen(o),
+                          core.forall_int(0, core.llen(o), lambda j: core.eq_t(recv.ty.elem, z3.Select(core.larr(conv), j),
+                                          self._tpk(self.adapt(self._elem_form(core.lget(o, j)), recv.ty.elem), recv.ty.elem).t)))
+            except OutsideSubset:
+                raise OutsideSubset("extend %r with %r" % (recv.ty, o.ty))
+            o = conv
         if o.ty != recv.ty:
             raise OutsideSubset("extend %r with %r" % (recv.ty, o.ty))
         st2, r = self.list_concat(recv, o, st)
@@ -675,7 +700,8 @@ class CallMixin(object):
         if v.ty is STATIC or isinstance(v.ty, Tup):
             return self.adapt(v if v.ty is STATIC else V(STATIC, None, [core.tget(v, i) for i in range(len(v.ty.elems))]), Set(ety))
         if isinstance(v.ty, Opt):
-            raise OutsideSubset("set from optional")
+            inner = self._as_set(core.oval(v), ety, st)
+            return core.svirt(ety, lambda x, v=v, inner=inner: z3.And(z3.Not(core.ois_none(v)), core.smem_t(inner, x)))
         if isinstance(v.ty, Ref):
             it = self.reg.classes.get(v.ty.cls, {}).get("__iterset__")
             if it is not None:
@@ -775,12 +801,12 @@ class CallMixin(object):
     def m_map_items(self, recv, args, kw, st, node):
         st = st.copy()
         ty = List(Tup(recv.ty.k, recv.ty.v))
-        r = fresh(ty, "items")
+        r = fresh(ty, "items" + CTX.run_tag)
         S = CTX.sort(ty.elem)
         n = core.llen(r)
         f0 = lambda j: S.accessor(0, 0)(z3.Select(core.larr(r), j))
         f1 = lambda j: S.accessor(0, 1)(z3.Select(core.larr(r), j))
-        pf = CTX.func(CTX.fresh("ipos"), CTX.sort(recv.ty.k), z3.IntSort())
+        pf = CTX.func(CTX.fresh("ipos" + CTX.run_tag), CTX.sort(recv.ty.k), z3.IntSort())
         dom = core.mdom(recv)
         st.assume(n >= 0)
         if CTX.scope is not None:
@@ -1031,8 +1057,9 @@ class CallMixin(object):
             order = core.ufun(fn, [sm], List(ety))
             pos = lambda x: CTX.func(fn + "_pos_" + core._mangle(ety.key), CTX.sort(s.ty), CTX.sort(ety), z3.IntSort())(sm.t, x)
         else:
-            order = fresh(List(ety), "order")
-            pf = CTX.func(CTX.fresh("pos"), CTX.sort(ety), z3.IntSort())
+            order = fresh(List(ety), "order" + CTX.run_tag)
+            order.tag = "arbitrary-order"       # the enumeration order of a set / dict: any permutation
+            pf = CTX.func(CTX.fresh("pos" + CTX.run_tag), CTX.sort(ety), z3.IntSort())
             pos = lambda x: pf(x)
         n = core.llen(order)
         st.assume(n >= 0)
